@@ -446,7 +446,17 @@ impl<Upstream> ValidationContext<Upstream> {
         // A secure answer may actually be insecure if there is an insecure
         // CNAME or DNAME in the chain. Start by assume that secure is secure
         // and downgrade if required.
-        let maybe_secure = ValidationState::Secure;
+        //
+        // The message as a whole can only be secure if every RRset in the
+        // answer and authority sections is secure (see RFC 4035,
+        // Section 3.2.3). An RRset that is insecure or indeterminate, for
+        // instance an unsigned RRset that claims to be from below an
+        // insecure delegation, downgrades the result even if it is not
+        // needed for the answer.
+        let mut maybe_secure = ValidationState::Secure;
+        for g in answers.iter().chain(authorities.iter()) {
+            maybe_secure = map_maybe_secure(g.state(), maybe_secure);
+        }
 
         let (sname, state, ede) = do_cname_dname(
             qname,
